@@ -10,6 +10,7 @@ package main
 
 import (
 	"fmt"
+	"regexp"
 	"strconv"
 	"strings"
 	"testing"
@@ -63,6 +64,8 @@ func (s *stdSvc) gTargetVia(rt *rapid.T, label string) AVia {
 	return v
 }
 
+var c02CSeqLine = regexp.MustCompile(`(?im)^(cseq[ \t]*:.*?)INVITE([ \t]*\r?)$`)
+
 type c02Txn struct {
 	ID      string
 	UA      int
@@ -73,11 +76,15 @@ type c02Txn struct {
 	Answers int
 	Final   bool
 	Rport   bool
+	Method  string
+	Wire    string // the request as sent
+	CallID  string
+	Cancel  bool // an INVITE that has been cancelled, or the CANCEL itself
 }
 
 func TestC02(t *testing.T) {
 	V.Rule("lab: (c) one configuration with two entries under proxies: whose host tables map the same name to different machines (and the global table to a third): responses whose next Via names it, sent to either service in any order, go where the receiving service's table says. (a) responses with 1-6 Via entries over 1-6 header lines (full/compact/odd-case names, ',' / ', ' joins), the entry beneath the top one naming a harness endpoint by IPv4 literal or host-table name (or an unresolvable name), transports UDP/TCP/udp/Tcp and unsupported TLS/SCTP/WS, port present or absent (5060), received / rport absent / valueless / numeric / non-numeric, maddr, ttl, unknown parameters in any order, malformed second entries, every status class, sent from backend and non-backend addresses; (b) rapid state-machine histories over 4 user agents (UDP and TCP ingress, own Via stacks of 1-3 entries, rport requested or not) and UDP/TCP backends answering outstanding transactions in any order, 1xx before final. Oracle: (a) reference model for the destination (received over sent-by host; numeric rport over sent-by port only with received; default 5060; unsupported transport, unresolvable host, no or undecodable remaining Via => nothing), exactly one reception there and nothing elsewhere after a FIFO barrier, remaining Via entries textually intact and in order; (b) the response arrives at the socket/connection the request came from with exactly the Via stack the user agent sent (first entry modulo received/rport). non-trivial = >= 3 Via entries in >= 2 lines, or received/rport present, or a drop case; for (b) >= 2 transactions open at once; distinct by message / history")
-	V.Require("burst of requests answered", "same Via lines sent again", "relayed:udp", "relayed:tcp", "drop:unsupported transport", "drop:no remaining via", "drop:malformed via", "drop:unresolvable host", "received present", "rport numeric with received", "rport without received (ignored)", "port absent (5060)", ">=3 vias in >=2 lines", "history: >=2 transactions open", "history: answered out of order", "history: tcp ingress", "history: tcp backend")
+	V.Require("burst of requests answered", "same Via lines sent again", "relayed:udp", "relayed:tcp", "drop:unsupported transport", "drop:no remaining via", "drop:malformed via", "drop: decodable Via entry below the undecodable one", "drop:unresolvable host", "received present", "rport numeric with received", "rport without received (ignored)", "port absent (5060)", ">=3 vias in >=2 lines", "history: >=2 transactions open", "history: answered out of order", "history: tcp ingress", "history: tcp backend", "history: CANCEL with the INVITE's branch")
 	svc, err := newStdSvc(stdVariant{NoReceived: [3]string{"", "true", ""}})
 	if err != nil {
 		V.HarnessError(t, "cannot start lab instance: %v", err)
@@ -161,11 +168,22 @@ func TestC02(t *testing.T) {
 					continue
 				}
 				done = true
+				// a perfectly good entry (the one that was replaced: it names a harness
+				// endpoint) may follow the undecodable one - it must not be used instead
+				goodBelow := rapid.Bool().Draw(rt, "good entry below the undecodable one")
+				V.ClassIf(goodBelow, "drop: decodable Via entry below the undecodable one")
 				if rapid.Bool().Draw(rt, "sameline") {
-					hdrs = append(hdrs, AHdr{Kind: hVia, Name: h.Name, SP: h.SP, Raw: top.String() + "," + malformed})
+					raw := top.String() + "," + malformed
+					if goodBelow {
+						raw += "," + p.Vias[1].String()
+					}
+					hdrs = append(hdrs, AHdr{Kind: hVia, Name: h.Name, SP: h.SP, Raw: raw})
 				} else {
 					hdrs = append(hdrs, AHdr{Kind: hVia, Name: h.Name, SP: h.SP, Vias: []AVia{top}})
 					hdrs = append(hdrs, AHdr{Kind: hVia, Name: h.Name, SP: h.SP, Raw: malformed})
+					if goodBelow {
+						hdrs = append(hdrs, AHdr{Kind: hVia, Name: h.Name, SP: h.SP, Vias: []AVia{p.Vias[1]}})
+					}
 				}
 			}
 			msg.Hdrs = hdrs
@@ -344,6 +362,7 @@ func TestC02(t *testing.T) {
 				s.model.learnRequest(L, srcIP, msg)
 				hist = append(hist, fmt.Sprintf("ua%d sends %s %s via %s (rport=%v)", g.UA, p.Method, tx.ID, L, tx.Rport))
 				V.Journal(t.Name()+"/histories", hist)
+				tx.Method, tx.Wire, tx.CallID = p.Method, string(msg.Bytes()), p.CallID
 				s.in.expect(msg.Bytes())
 				if err := send(msg.Bytes()); err != nil {
 					V.HarnessError(rt, "send: %v", err)
@@ -365,6 +384,47 @@ func TestC02(t *testing.T) {
 				}
 				V.ClassIf(g.TCP, "history: tcp ingress")
 				V.ClassIf(got[0].tcp != nil, "history: tcp backend")
+			},
+			"uaCancels": func(rt *rapid.T) {
+				// RFC 3261 9.1: the CANCEL copies Request-URI, Via (branch included), From,
+				// To, Call-ID and the CSeq number of the pending INVITE; it is a transaction
+				// of its own and both are answered, in either order
+				var cand []*c02Txn
+				for _, o := range open {
+					if o.Method == "INVITE" && !o.Cancel {
+						cand = append(cand, o)
+					}
+				}
+				if len(cand) == 0 || len(open) >= 7 {
+					rt.Skip("no pending INVITE")
+				}
+				inv := cand[rapid.IntRange(0, len(cand)-1).Draw(rt, "which INVITE")]
+				inv.Cancel = true
+				wire := c02CSeqLine.ReplaceAllString(strings.Replace(inv.Wire, "INVITE ", "CANCEL ", 1), "${1}CANCEL${2}")
+				tx := &c02Txn{ID: inv.ID + "-cancel", UA: inv.UA, Ingress: inv.Ingress, SentVia: inv.SentVia, SrcPort: inv.SrcPort, Rport: inv.Rport, Method: "CANCEL", Wire: wire, CallID: inv.CallID, Cancel: true}
+				send, _, _, err := s.sender(tx.Ingress)
+				if err != nil {
+					V.HarnessError(rt, "ingress: %v", err)
+				}
+				hist = append(hist, fmt.Sprintf("ua%d sends CANCEL for %s (same branch)", tx.UA, inv.ID))
+				V.Journal(t.Name()+"/histories", hist)
+				s.in.expect([]byte(wire))
+				if err := send([]byte(wire)); err != nil {
+					V.HarnessError(rt, "send: %v", err)
+				}
+				rs, err := s.in.settle(send, 1)
+				if _, lost := err.(labLost); lost {
+					failf(rt, "%v", err)
+				} else if err != nil {
+					V.HarnessError(rt, "%v", err)
+				}
+				got := labMessages(rs)
+				if len(got) != 1 || !s.isBackendOf(got[0].ep, tx.Ingress.Entry, got[0].tcp != nil) {
+					failf(rt, "the CANCEL for %s must reach exactly one backend of listen entry %d; receptions:\n%s\nhistory: %v", inv.ID, tx.Ingress.Entry, labDescribe(got), hist)
+				}
+				tx.At = got[0]
+				open = append(open, tx)
+				V.Class("history: CANCEL with the INVITE's branch")
 			},
 			"backendAnswers": func(rt *rapid.T) {
 				if len(open) == 0 {
@@ -449,8 +509,11 @@ func TestC02(t *testing.T) {
 						failf(rt, "response for %s: Via entry %d is %q, the user agent sent %q\nhistory: %v", tx.ID, i, outE[i], v.String(), hist)
 					}
 				}
-				if id, _ := r.msg.First(hCallID); id != "c02h-"+tx.ID {
+				if id, _ := r.msg.First(hCallID); id != tx.CallID {
 					failf(rt, "response for %s arrived with Call-ID %q", tx.ID, id)
+				}
+				if cs, _ := r.msg.First(hCSeq); !strings.HasSuffix(strings.TrimSpace(cs), tx.Method) {
+					failf(rt, "response for the %s %s arrived with CSeq %q\nhistory: %v", tx.Method, tx.ID, cs, hist)
 				}
 				if code >= 200 {
 					open = append(open[:k], open[k+1:]...)
